@@ -32,7 +32,7 @@ def gen_levels(R, tier):
     c = resgen.gen_cut_string(R, tier, min_frags=2, with_levels=R.choice([1, 2]), virtual_in_levels=0.5)
     if c is None or 'virtual_node_inside_a_fragment' not in c['features']:
         return None
-    return dict(input=c['input'], original=c['two_level'], model=c['model'], multilevel=True, nontrivial=True,
+    return dict(input=c['input'], original=c['two_level'], model=c['model'], multilevel=True, nontrivial=True, drop=R.randint(0, 20),
                 features=sorted(set(c['features']) | {'multi_level'}))
 
 
@@ -130,6 +130,19 @@ def oracle(case):
             invariants.check_mapping(cg, fine, r.fragment_dicts[lv], lv == r.resolutions - 1, 'level %d: ' % lv)
             invariants.check_bonds(cg, fine, r.fragment_dicts[lv], True, lv == r.resolutions - 1, True, 'level %d: ' % lv)
         check_molecule(fine, model_g, 'multi-level string with virtual nodes inside fragments')
+        # a fragment-less node of a LOWER level that is bonded through descriptors is rejected as well
+        import re
+        blocks = re.findall(r"\{[^\}]+\}", case['input'])
+        defs = blocks[-1][1:-1].split(',')
+        if len(defs) >= 2:
+            k = case.get('drop', 0) % len(defs)
+            bad = '.'.join(blocks[:-1] + ['{' + ','.join(d for i, d in enumerate(defs) if i != k) + '}'])
+            try:
+                sut(resolve, bad)
+            except SutError as e:
+                expect(e.type == 'SyntaxError', 'virtual:wrong-exception', lambda: 'fragment-less bonded node at a lower level: %s for %s' % (e.sig, bad))
+            else:
+                raise Fail('virtual:bonded-virtual-node-accepted', 'no error for %s' % bad)
         return
     cg0, fine0 = sut(resolve, case['original'])
     ref_counts = {}
